@@ -17,11 +17,18 @@ inline std::vector<T> stack_alphabet(size_t n)
     std::vector<T> a;
     if constexpr (std::is_floating_point_v<T>) {
         if (n <= 2) a = {T(-0.25), T(0), T(0.25), T(0.5), T(1), T(1.5), T(1.75), T(2), T(2.5), T(3), T(3.25)};
+        // for double coordinates: exact dyadic values that single precision cannot hold (a narrowing anywhere on the
+        // coordinate path becomes visible), one inside the usual grids and one large
+        if (n <= 2 && sizeof(T) == 8) {
+            a.push_back(static_cast<T>(1.0 + 9.313225746154785e-10));  // 1 + 2^-30
+            a.push_back(static_cast<T>(16777217.0));                   // 2^24 + 1
+        }
         else if (n == 3) a = {T(-0.25), T(0), T(0.5), T(1), T(1.75), T(2.5), T(3.25)};
         else a = {T(0), T(0.5), T(1.25), T(2), T(3.25)};
     } else {
         if (n <= 3) a = {T(0), T(1), T(2), T(3), T(4)};
         else a = {T(0), T(1), T(2), T(3)};
+        if (n <= 2) a.push_back(static_cast<T>(16777217));  // 2^24 + 1: not representable in single precision
     }
     return a;
 }
